@@ -320,21 +320,6 @@ def fieldsLenF (t : Tape) : Nat → Nat → Nat → R Nat
 
 def fieldsLen (t : Tape) (s e : Nat) : R Nat := fieldsLenF t (loopFuel t) s e
 
-/-- dom.rs:71 `values_len` -/
-def valuesLenF (t : Tape) : Nat → Nat → Nat → R Nat
-  | 0, _, _ => .error .hang
-  | fuel + 1, ind, e =>
-    if ind < e then
-      match nextIdxValues t ind with
-      | .error f => .error f
-      | .ok n =>
-        match valuesLenF t fuel n e with
-        | .error f => .error f
-        | .ok c => .ok (c + 1)
-    else .ok 0
-
-def valuesLen (t : Tape) (s e : Nat) : R Nat := valuesLenF t (loopFuel t) s e
-
 /-- one `(key, op, value)` item of `FieldsIter`: the key token itself, its index, the
 operator and the index of the value token -/
 structure FieldE where
@@ -395,25 +380,34 @@ def remainderStart (t : Tape) (ti e : Nat) : Nat :=
     | _ => ti
   | some _ => ti
 
-/-- dom.rs:867 `ValuesIter::next` from `token_ind = pos` -/
-def valuesNext (t : Tape) (pos e : Nat) : R (Option Nat × Nat) :=
-  if pos < e then
-    match nextIdxValues t pos with
-    | .error f => .error f
-    | .ok n => .ok (some pos, n)
-  else .ok (none, pos)
+/-- all items of `ArrayReader { s, e }.values()`: the value indices, by `next_idx_values`
+(dom.rs:867 `ValuesIter::next`) -/
+def valuesAllF (t : Tape) : Nat → Nat → Nat → R (List Nat)
+  | 0, _, _ => .error .hang
+  | fuel + 1, pos, e =>
+    if pos < e then
+      match nextIdxValues t pos with
+      | .error f => .error f
+      | .ok n =>
+        match valuesAllF t fuel n e with
+        | .error f => .error f
+        | .ok vs => .ok (pos :: vs)
+    else .ok []
 
-/-- the test `window[1]` is an operator token and `window[2]` is present (json/mod.rs:710-712) -/
-def windowOp (t : Tape) (w1 w2 : Option Nat) : R (Option (Op × Nat)) :=
-  match w1 with
-  | none => .ok none
-  | some i =>
-    match t[i]? with
+def valuesAll (t : Tape) (s e : Nat) : R (List Nat) := valuesAllF t (loopFuel t) s e
+
+/-- the test of json/mod.rs:710-712 on the two values after the current one: `window[1]`
+is an operator token (`token()` indexes the tape) and `window[2]` is present -/
+def windowDecide (t : Tape) (rest : List Nat) : R (Option (Op × Nat)) :=
+  match rest with
+  | [] => .ok none
+  | opr :: rest1 =>
+    match t[opr]? with
     | none => .error .panic
     | some (.op o) =>
-      match w2 with
-      | some v => .ok (some (o, v))
-      | none => .ok none
+      match rest1 with
+      | v :: _ => .ok (some (o, v))
+      | [] => .ok none
     | some _ => .ok none
 
 /-- dom.rs:757 `read_array`, `Object { mixed: true }` arm: advance with `next_idx` until
@@ -469,23 +463,167 @@ def groupRemove : List (Bytes × List FieldE) → Bytes → Option (List FieldE 
       | none => none
       | some (r, rest') => some (r, (k, vs) :: rest')
 
-/-! ### the serializers -/
+/-! ### the serializers
+
+The Rust serializers stream: they interleave iterator steps (`fields.next()`, the three-slot
+look-ahead window of `InnerSerArray`) with the serialization of the values.  The model
+first runs the iterator to completion (`fieldsAll`, `valuesAll`) and then serializes the
+values in order.  On a token list where every step succeeds this is the same computation;
+on an ill-formed one both fail, but the model may report `panic` where the code would first
+loop forever inside an earlier value (or the other way round) — `Fail.panic` vs `Fail.hang`
+is only exact up to that reordering.
+
+The list combinators are generic in the value serializer `sv` (= `serValue fuel`, the
+serializer for one nesting level further down), so that fuel only counts nesting depth. -/
 
 section Ser
-variable (o : Opts) (enc : Enc) (t : Tape)
+variable (sv : Nat → R JVal) (enc : Enc) (t : Tape)
 
-mutual
+/-- json/mod.rs:690 `InnerSerArray::serialize` over the value indices: `skip` counts the
+values already consumed by a `SingleObject` (the window is refilled with the NEXT three) -/
+def windowList : List Nat → Nat → R (List JVal)
+  | [], _ => .ok []
+  | _ :: rest, skip + 1 => windowList rest skip
+  | first :: rest, 0 =>
+    match t[first]? with
+    | none => .error .panic
+    | some .mixed => windowList rest 0
+    | some ftok =>
+      match windowDecide t rest with
+      | .error f => .error f
+      | .ok (some (op, v)) =>
+        -- SingleObject { key: first, op, value: v }
+        match sv v with
+        | .error f => .error f
+        | .ok jv =>
+          let key := match tokStr? enc ftok with | some k => k | none => kInvalidKey
+          match windowList rest 2 with
+          | .error f => .error f
+          | .ok more => .ok (JVal.obj [(key, wrapOp (if op = .eq then none else some op) jv)] :: more)
+      | .ok none =>
+        match sv first with
+        | .error f => .error f
+        | .ok jv =>
+          match windowList rest 0 with
+          | .error f => .error f
+          | .ok more => .ok (jv :: more)
 
-/-- json/mod.rs:512 `JsonValueBuilder::serialize` on the token at `idx` -/
-def serValue : Nat → Nat → R JVal
+/-- the entries `(key text, OperatorValue)` of the Preserve / KeyValuePairs arms, in field order -/
+def entriesOf : List FieldE → R (List (Bytes × JVal))
+  | [] => .ok []
+  | fe :: rest =>
+    match sv fe.valIdx with
+    | .error f => .error f
+    | .ok jv =>
+      match entriesOf rest with
+      | .error f => .error f
+      | .ok es => .ok ((keyJson enc fe.keyTok, wrapOp fe.op jv) :: es)
+
+/-- `Vec<OperatorValue>::serialize` for a `GroupEntry::Multiple` -/
+def opValues : List FieldE → R (List JVal)
+  | [] => .ok []
+  | fe :: rest =>
+    match sv fe.valIdx with
+    | .error f => .error f
+    | .ok jv =>
+      match opValues rest with
+      | .error f => .error f
+      | .ok vs => .ok (wrapOp fe.op jv :: vs)
+
+/-- second pass of the Group arm: `FieldGroupsIter::next` over the field list with the map
+of later occurrences -/
+def groupEntries : List FieldE → List (Bytes × List FieldE) → R (List (Bytes × JVal))
+  | [], _ => .ok []
+  | fe :: rest, groups =>
+    match groupRemove groups (keyBytes fe.keyTok) with
+    | none => groupEntries rest groups
+    | some ([], groups') =>
+      match sv fe.valIdx with
+      | .error f => .error f
+      | .ok jv =>
+        match groupEntries rest groups' with
+        | .error f => .error f
+        | .ok es => .ok ((keyJson enc fe.keyTok, wrapOp fe.op jv) :: es)
+    | some (m :: more, groups') =>
+      match opValues sv (fe :: m :: more) with
+      | .error f => .error f
+      | .ok vs =>
+        match groupEntries rest groups' with
+        | .error f => .error f
+        | .ok es => .ok ((keyJson enc fe.keyTok, .arr vs) :: es)
+
+/-- `fields.remainder()`, `is_empty()` (dom.rs:71 `values_len` = number of `values()` items)
+and the `InnerSerArray` of the trailing array part -/
+def remainderJson (last e : Nat) : R (Option JVal) :=
+  match valuesAll t (remainderStart t last e) e with
+  | .error f => .error f
+  | .ok [] => .ok none
+  | .ok (v :: vs) =>
+    match windowList sv enc t (v :: vs) 0 with
+    | .error f => .error f
+    | .ok xs => .ok (some (.arr xs))
+
+/-- json/mod.rs:742 `JsonArrayBuilder::serialize` on `ArrayReader { s, e }` -/
+def arrayJson (o : Opts) (s e : Nat) : R JVal :=
+  match valuesAll t s e with
+  | .error f => .error f
+  | .ok vals =>
+    match windowList sv enc t vals 0 with
+    | .error f => .error f
+    | .ok xs =>
+      if o.dup ≠ .kvp then .ok (.arr xs)
+      else .ok (.obj [(kType, .str kArray), (kVal, .arr xs)])
+
+/-- the three shapes of json/mod.rs:566 from the entries and the optional trailer -/
+def objectShape (o : Opts) (es : List (Bytes × JVal)) (r : Option JVal) : JVal :=
+  match o.dup with
+  | .kvp =>
+    -- SerTapeTyped: pairs `[key, value]`, the trailer array as a last element
+    let pairs := es.map (fun kv => JVal.arr [.str kv.1, kv.2])
+    .obj [(kType, .str kObj), (kVal, .arr (match r with | none => pairs | some x => pairs ++ [x]))]
+  | _ =>
+    .obj (match r with | none => es | some x => es ++ [(kRemainder, x)])
+
+/-- json/mod.rs:566 `JsonObjectBuilder::serialize` on `ObjectReader { s, e }` -/
+def objectJson (o : Opts) (s e : Nat) : R JVal :=
+  match o.dup with
+  | .group =>
+    -- FieldGroupsIter::new: fields_len() for the map capacity, then a full pass
+    match fieldsLen t s e with
+    | .error f => .error f
+    | .ok _ =>
+      match fieldsAll t s e with
+      | .error f => .error f
+      | .ok (fs, last) =>
+        match groupEntries sv enc fs (buildGroups fs) with
+        | .error f => .error f
+        | .ok es =>
+          match remainderJson sv enc t last e with
+          | .error f => .error f
+          | .ok r => .ok (objectShape o es r)
+  | _ =>
+    match fieldsAll t s e with
+    | .error f => .error f
+    | .ok (fs, last) =>
+      match entriesOf sv enc fs with
+      | .error f => .error f
+      | .ok es =>
+        match remainderJson sv enc t last e with
+        | .error f => .error f
+        | .ok r => .ok (objectShape o es r)
+
+end Ser
+
+/-- json/mod.rs:512 `JsonValueBuilder::serialize` on the token at `idx`; fuel = nesting depth -/
+def serValue (o : Opts) (enc : Enc) (t : Tape) : Nat → Nat → R JVal
   | 0, _ => .error .hang
   | fuel + 1, idx =>
     match t[idx]? with
     | none => .error .panic
     | some (.unquoted s) => .ok (narrowScalar o enc false s)
     | some (.quoted s) => .ok (narrowScalar o enc true s)
-    | some (.array e _) => serArray fuel (idx + 1) e
-    | some (.object e _) => serObject fuel (idx + 1) e
+    | some (.array e _) => arrayJson (serValue o enc t fuel) enc t o (idx + 1) e
+    | some (.object e _) => objectJson (serValue o enc t fuel) enc t o (idx + 1) e
     | some (.header s) =>
       -- read_array(): ArrayReader { start: idx, end: next_idx(idx + 1) }
       match nextIdx t (idx + 1) with
@@ -498,193 +636,13 @@ def serValue : Nat → Nat → R JVal
           match nextIdxValues t (idx + 1) with
           | .error f => .error f
           | .ok _ =>
-            match serValue fuel (idx + 1) with
+            match serValue o enc t fuel (idx + 1) with
             | .error f => .error f
             | .ok v => .ok (.obj [(decode enc s, v)])
     | some _ => .ok .null
 
-/-- json/mod.rs:742 `JsonArrayBuilder::serialize` on `ArrayReader { s, e }` -/
-def serArray : Nat → Nat → Nat → R JVal
-  | 0, _, _ => .error .hang
-  | fuel + 1, s, e =>
-    match serInner fuel s e with
-    | .error f => .error f
-    | .ok v =>
-      if o.dup ≠ .kvp then .ok v
-      else .ok (.obj [(kType, .str kArray), (kVal, v)])
-
-/-- json/mod.rs:690 `InnerSerArray::serialize`: fill the three-slot window, run the loop -/
-def serInner : Nat → Nat → Nat → R JVal
-  | 0, _, _ => .error .hang
-  | fuel + 1, s, e =>
-    match valuesNext t s e with
-    | .error f => .error f
-    | .ok (w0, p1) =>
-      match valuesNext t p1 e with
-      | .error f => .error f
-      | .ok (w1, p2) =>
-        match valuesNext t p2 e with
-        | .error f => .error f
-        | .ok (w2, p3) =>
-          match windowLoop fuel w0 w1 w2 p3 e with
-          | .error f => .error f
-          | .ok xs => .ok (.arr xs)
-
-/-- the `while let Some(first_val) = &window[0]` loop -/
-def windowLoop : Nat → Option Nat → Option Nat → Option Nat → Nat → Nat → R (List JVal)
-  | 0, _, _, _, _, _ => .error .hang
-  | fuel + 1, w0, w1, w2, pos, e =>
-    match w0 with
-    | none => .ok []
-    | some first =>
-      match t[first]? with
-      | none => .error .panic
-      | some .mixed =>
-        match valuesNext t pos e with
-        | .error f => .error f
-        | .ok (n, pos') => windowLoop fuel w1 w2 n pos' e
-      | some ftok =>
-        match windowOp t w1 w2 with
-        | .error f => .error f
-        | .ok (some (op, v)) =>
-          -- SingleObject { key: first, op, value: v }
-          match serValue fuel v with
-          | .error f => .error f
-          | .ok jv =>
-            let key := match tokStr? enc ftok with | some k => k | none => kInvalidKey
-            let item := JVal.obj [(key, wrapOp (if op = .eq then none else some op) jv)]
-            match valuesNext t pos e with
-            | .error f => .error f
-            | .ok (n0, q1) =>
-              match valuesNext t q1 e with
-              | .error f => .error f
-              | .ok (n1, q2) =>
-                match valuesNext t q2 e with
-                | .error f => .error f
-                | .ok (n2, q3) =>
-                  match windowLoop fuel n0 n1 n2 q3 e with
-                  | .error f => .error f
-                  | .ok rest => .ok (item :: rest)
-        | .ok none =>
-          match serValue fuel first with
-          | .error f => .error f
-          | .ok jv =>
-            match valuesNext t pos e with
-            | .error f => .error f
-            | .ok (n, pos') =>
-              match windowLoop fuel w1 w2 n pos' e with
-              | .error f => .error f
-              | .ok rest => .ok (jv :: rest)
-
-/-- the `for (key, op, val) in fields.by_ref()` loop of the Preserve / KeyValuePairs arms:
-entries `(key text, OperatorValue)` in order, and the final `token_ind` -/
-def fieldLoop : Nat → Nat → Nat → R (List (Bytes × JVal) × Nat)
-  | 0, _, _ => .error .hang
-  | fuel + 1, ti, e =>
-    match fieldsNext t ti e with
-    | .error f => .error f
-    | .ok none => .ok ([], ti)
-    | .ok (some (fe, ti')) =>
-      match serValue fuel fe.valIdx with
-      | .error f => .error f
-      | .ok jv =>
-        match fieldLoop fuel ti' e with
-        | .error f => .error f
-        | .ok (rest, last) => .ok ((keyJson enc fe.keyTok, wrapOp fe.op jv) :: rest, last)
-
-/-- `Vec<OperatorValue>::serialize` for a `GroupEntry::Multiple` -/
-def opValues : Nat → List FieldE → R (List JVal)
-  | 0, _ => .error .hang
-  | _ + 1, [] => .ok []
-  | fuel + 1, fe :: rest =>
-    match serValue fuel fe.valIdx with
-    | .error f => .error f
-    | .ok jv =>
-      match opValues fuel rest with
-      | .error f => .error f
-      | .ok vs => .ok (wrapOp fe.op jv :: vs)
-
-/-- second pass of the Group arm: `FieldGroupsIter::next` over the (already successfully
-iterated) field list with the map of later occurrences -/
-def groupLoop : Nat → List FieldE → List (Bytes × List FieldE) → R (List (Bytes × JVal))
-  | 0, _, _ => .error .hang
-  | _ + 1, [], _ => .ok []
-  | fuel + 1, fe :: rest, groups =>
-    match groupRemove groups (keyBytes fe.keyTok) with
-    | none => groupLoop fuel rest groups
-    | some ([], groups') =>
-      match serValue fuel fe.valIdx with
-      | .error f => .error f
-      | .ok jv =>
-        match groupLoop fuel rest groups' with
-        | .error f => .error f
-        | .ok es => .ok ((keyJson enc fe.keyTok, wrapOp fe.op jv) :: es)
-    | some (more, groups') =>
-      match opValues fuel (fe :: more) with
-      | .error f => .error f
-      | .ok vs =>
-        match groupLoop fuel rest groups' with
-        | .error f => .error f
-        | .ok es => .ok ((keyJson enc fe.keyTok, .arr vs) :: es)
-
-/-- `fields.remainder()` / `is_empty()` / the `"remainder"` `InnerSerArray` -/
-def serRemainder : Nat → Nat → Nat → R (Option JVal)
-  | 0, _, _ => .error .hang
-  | fuel + 1, last, e =>
-    let start := remainderStart t last e
-    match valuesLen t start e with
-    | .error f => .error f
-    | .ok 0 => .ok none
-    | .ok _ =>
-      match serInner fuel start e with
-      | .error f => .error f
-      | .ok v => .ok (some v)
-
-/-- json/mod.rs:566 `JsonObjectBuilder::serialize` on `ObjectReader { s, e }` -/
-def serObject : Nat → Nat → Nat → R JVal
-  | 0, _, _ => .error .hang
-  | fuel + 1, s, e =>
-    match o.dup with
-    | .group =>
-      -- FieldGroupsIter::new: fields_len() for the map capacity, then a full pass
-      match fieldsLen t s e with
-      | .error f => .error f
-      | .ok _ =>
-        match fieldsAll t s e with
-        | .error f => .error f
-        | .ok (fs, last) =>
-          match groupLoop fuel fs (buildGroups fs) with
-          | .error f => .error f
-          | .ok es =>
-            match serRemainder fuel last e with
-            | .error f => .error f
-            | .ok none => .ok (.obj es)
-            | .ok (some r) => .ok (.obj (es ++ [(kRemainder, r)]))
-    | .preserve =>
-      match fieldLoop fuel s e with
-      | .error f => .error f
-      | .ok (es, last) =>
-        match serRemainder fuel last e with
-        | .error f => .error f
-        | .ok none => .ok (.obj es)
-        | .ok (some r) => .ok (.obj (es ++ [(kRemainder, r)]))
-    | .kvp =>
-      -- SerTapeTyped: pairs `[key, value]`, the trailer array as a last element
-      match fieldLoop fuel s e with
-      | .error f => .error f
-      | .ok (es, last) =>
-        let pairs := es.map (fun kv => JVal.arr [.str kv.1, kv.2])
-        match serRemainder fuel last e with
-        | .error f => .error f
-        | .ok none => .ok (.obj [(kType, .str kObj), (kVal, .arr pairs)])
-        | .ok (some r) => .ok (.obj [(kType, .str kObj), (kVal, .arr (pairs ++ [r]))])
-
-end
-
-end Ser
-
-/-- depth budget of the mutual recursion (loop iterations count as depth) -/
-def fuelOf (t : Tape) : Nat := 4 * t.size + 16
+/-- nesting depth budget: a container spans at least two tokens -/
+def fuelOf (t : Tape) : Nat := t.size + 1
 
 /-! ### entry points -/
 
@@ -717,7 +675,7 @@ options, `to_vec()`.  `none` = entry point not applicable (no first field / not 
 def toJson (o : Opts) (enc : Enc) (entry : Entry) (t : Tape) : R (Option JVal) :=
   match entry with
   | .obj =>
-    match serObject o enc t (fuelOf t) 0 t.size with
+    match objectJson (serValue o enc t (fuelOf t)) enc t o 0 t.size with
     | .error f => .error f
     | .ok v => .ok (some v)
   | .val =>
@@ -728,7 +686,7 @@ def toJson (o : Opts) (enc : Enc) (entry : Entry) (t : Tape) : R (Option JVal) :
       match valueTokensLen t idx with
       | .error f => .error f
       | .ok _ =>
-        match serValue o enc t (fuelOf t) idx with
+        match serValue o enc t (fuelOf t + 1) idx with
         | .error f => .error f
         | .ok v => .ok (some v)
   | .arr =>
@@ -743,7 +701,7 @@ def toJson (o : Opts) (enc : Enc) (entry : Entry) (t : Tape) : R (Option JVal) :
         match checkedSub e s with
         | .error f => .error f
         | .ok _ =>
-          match serArray o enc t (fuelOf t) s e with
+          match arrayJson (serValue o enc t (fuelOf t)) enc t o s e with
           | .error f => .error f
           | .ok v => .ok (some v)
 
